@@ -137,29 +137,6 @@ func (e *kvElection) heartbeatLoop(ctx context.Context) {
 					e.cfg.Metrics.ObserveHeartbeatDuration(duration, labels)
 				}
 
-				// Check if it's a revision mismatch (possible priority takeover)
-				// Revision mismatch errors contain "revision mismatch" in the message
-				if strings.Contains(strings.ToLower(updateErr.Error()), "revision mismatch") {
-					// Get current leader to check if it's a priority takeover
-					entry, getErr := e.kv.Get(e.key)
-					if getErr == nil && entry != nil {
-						var currentPayload leadershipPayload
-						if json.Unmarshal(entry.Value(), &currentPayload) == nil {
-							if currentPayload.ID != e.cfg.InstanceID {
-								// We were taken over!
-								log.Warn("leadership_taken_over",
-									append(e.logWithContext(ctx),
-										zap.String("new_leader", currentPayload.ID),
-										zap.Int("new_priority", currentPayload.Priority),
-										zap.Int("our_priority", e.cfg.Priority),
-										zap.Uint64("revision", entry.Revision()),
-									)...,
-								)
-							}
-						}
-					}
-				}
-
 				if IsPermanentError(updateErr) {
 					log.Error("heartbeat_failed",
 						append(e.logWithContext(ctx),
@@ -170,7 +147,15 @@ func (e *kvElection) heartbeatLoop(ctx context.Context) {
 						)...,
 					)
 					e.recordFailure(errorType)
+					// (a term that a stop call or another demotion has already ended issues
+					// no further store operation)
+					termOver := ctx.Err() != nil
 					e.handleHeartbeatFailure(updateErr)
+					if !termOver {
+						// Diagnostics only, after leadership has been given up: the read must not
+						// delay the demotion, nor keep this goroutine if the store does not answer.
+						e.logTakeoverAfterRefusedRefresh(ctx, updateErr, updateTimeout)
+					}
 					return
 				}
 
@@ -236,4 +221,47 @@ func (e *kvElection) handleHealthCheckFailure() {
 	)
 
 	e.stepDown("health_check_failure")
+}
+
+// logTakeoverAfterRefusedRefresh reports who holds the record after a refresh was refused
+// with a revision mismatch (possible priority takeover). It waits for the read for at
+// most the given time.
+func (e *kvElection) logTakeoverAfterRefusedRefresh(ctx context.Context, updateErr error, wait time.Duration) {
+	// Revision mismatch errors contain "revision mismatch" in the message
+	if !strings.Contains(strings.ToLower(updateErr.Error()), "revision mismatch") {
+		return
+	}
+	read := make(chan Entry, 1)
+	go func() {
+		entry, getErr := e.kv.Get(e.key)
+		if getErr != nil {
+			entry = nil
+		}
+		read <- entry
+	}()
+	var entry Entry
+	select {
+	case entry = <-read:
+	case <-time.After(wait):
+		return
+	}
+	if entry == nil {
+		return
+	}
+	var currentPayload leadershipPayload
+	if json.Unmarshal(entry.Value(), &currentPayload) != nil {
+		return
+	}
+	if currentPayload.ID != e.cfg.InstanceID {
+		// We were taken over!
+		log := e.getLogger()
+		log.Warn("leadership_taken_over",
+			append(e.logWithContext(ctx),
+				zap.String("new_leader", currentPayload.ID),
+				zap.Int("new_priority", currentPayload.Priority),
+				zap.Int("our_priority", e.cfg.Priority),
+				zap.Uint64("revision", entry.Revision()),
+			)...,
+		)
+	}
 }
